@@ -173,6 +173,9 @@ partial def loop (h : IO.FS.Stream) (d : DS) : IO Unit := do
                      readLimit := 0, maxFrame := (f "maxframe").toNat!, isClient := false }
     IO.println "ok"; loop h { mode := "rt", g, gc := { g with isClient := true }, sendq := ((field ws "sendq").getD "0").toNat!,
                               sendqFrom := (field ws "from").getD "c" }
+  | "C" :: "hnd" :: _ => IO.println "ok"; loop h { mode := "hnd" }
+  -- handler configurations other than "message handler only" are outside the model: judged by direct oracles (hws), constant line
+  | "F" :: _ => IO.println "F -"; loop h d
   | "C" :: "mask" :: _ => IO.println "ok"; loop h { mode := "mask" }
   | "C" :: "hs" :: _ => IO.println "ok"; loop h { mode := "hs" }
   | "Q" :: _ =>
